@@ -49,6 +49,39 @@ pub fn optimize(rules: Vec<Rule>) -> Vec<OptimizedRule> {
         .collect()
 }
 
+#[cfg(pest_parser_pest_verif)]
+/// Verification hook: applies a single AST pass to every rule
+/// (0 rotate, 1 skip, 2 unroll, 3 concatenate, 4 factor, 5 list).
+pub fn verif_apply_pass(rules: Vec<Rule>, pass: u32) -> Vec<Rule> {
+    let map = to_hash_map(&rules);
+    rules
+        .into_iter()
+        .map(|rule| match pass {
+            0 => rotator::rotate(rule),
+            1 => skipper::skip(rule, &map),
+            2 => unroller::unroll(rule),
+            3 => concatenator::concatenate(rule),
+            4 => factorizer::factor(rule),
+            5 => lister::list(rule),
+            _ => rule,
+        })
+        .collect()
+}
+
+#[cfg(pest_parser_pest_verif)]
+/// Verification hook: the conversion to `OptimizedRule`s, followed by `restore_on_err` when asked.
+pub fn verif_to_optimized(rules: Vec<Rule>, restore: bool) -> Vec<OptimizedRule> {
+    let optimized: Vec<OptimizedRule> = rules.into_iter().map(rule_to_optimized_rule).collect();
+    if !restore {
+        return optimized;
+    }
+    let optimized_map = to_optimized_hash_map(&optimized);
+    optimized
+        .into_iter()
+        .map(|rule| restorer::restore_on_err(rule, &optimized_map))
+        .collect()
+}
+
 fn rule_to_optimized_rule(rule: Rule) -> OptimizedRule {
     fn to_optimized(expr: Expr) -> OptimizedExpr {
         match expr {
